@@ -32,6 +32,8 @@ class GenericResource(Resource):
         existing_resource_types = {
             klass.model_fields["Type"].annotation.__args__[0] for klass in ResourceModels.__args__[0].__args__
         }
+        if value is not None and not isinstance(value, str):
+            raise ValueError(f"Resource Type must be a string, got {type(value).__name__}")
         if value in existing_resource_types and cls._strict:
             raise ValueError(f"Instantiation of GenericResource from {value} in {values} not allowed")
         else:
